@@ -529,7 +529,7 @@ func queryModel(ob *Obligation, fixed map[string]string, softs map[string]bool, 
 		b.WriteString("(get-value (" + t + "))\n")
 	}
 	os.WriteFile(file, []byte(b.String()), 0o644)
-	for _, sp := range []solverSpec{solvers[0], solvers[1]} {
+	for _, sp := range []solverSpec{solvers[0]} {
 		r := runSolver(context.Background(), sp, file, timeoutS)
 		if r.answer != "sat" {
 			continue
